@@ -10,35 +10,57 @@ THEOREMS = [_T + n for n in [
     "remote_ip_source", "remote_ip_valid_or_socket", "remote_ip_spec_partial", "remote_ip_spec_refuted",
     "protocol_http_or_https", "protocol_observed", "unapply_restores", "ctx_restored_after_run", "no_leak", "no_leak_trace",
     "leak_without_finish",
+    "remote_ip_numeric_trace", "remote_ip_numeric", "isValidIp_numeric", "remote_ip_allowed", "finish_raises_keeps_rewrite", "no_leak_conn",
 ]]
 TRUSTED = [
-    "netutil.is_valid_ip is a parameter of the model (`valid`); the harness evaluates the real function on every candidate string "
-    "of the case and hands the accepted ones to the driver (C43 covers is_valid_ip itself)",
+    "libc getaddrinfo(AI_NUMERICHOST) is a parameter (`gai`) of the model of is_valid_ip (C32.isValidIp: the pre-checks of the fixed "
+    "function + the resolver); the harness asks the raw resolver about every candidate string of the case, the MODEL decides validity "
+    "and the set it accepts is compared with the real is_valid_ip on every case. The resolver contracts the Lean theorems assume "
+    "(ResolverNumeric: it accepts only numeric-host text; ResolverPlain: it accepts every plain address) are not proved; the oracle "
+    "checks their consequences on every observed remote_ip with Spec.numericIP / Spec.allowedOf, which do not use is_valid_ip",
     "HTTP/1.x framing, header-block parsing on the wire and the exactly-once finish/close notification are C01/C05/C06; here the "
     "header block is parsed by the C06 model and the event trace headers;finish per request is what the real connection is observed to do",
     "core/faketransport.py + core/vloop.py (deterministic transport and clock under the real HTTP1ServerConnection)",
 ]
 ASSUMPTIONS = [
-    "the server's `protocol` argument is None, 'http' or 'https' and the stream is an AF_INET/AF_INET6 stream (socket address is an IP)",
-    "request header blocks are syntactically valid (field names are tokens, values are field-values); invalid blocks end the "
-    "connection with 400 before the proxy adapter runs",
+    "the server's `protocol` argument is None, 'http' or 'https'; for a stream that is not AF_INET/AF_INET6 (unix socket) 'the socket "
+    "address' is the documented stand-in '0.0.0.0'",
+    "5 % of the requests carry a header line that does not parse (no colon, non-token name, control character): the connection ends "
+    "with 400 before the proxy adapter runs, checked against the C06 model's verdict; otherwise header blocks are syntactically valid",
+    "the raw resolver outcome is this platform's (Linux/glibc; interface `lo` exists, so zone ids are exercised); getaddrinfo raising a "
+    "gaierror other than EAI_NONAME (re-raised by is_valid_ip) does not occur on header text and is not modelled",
     "str.strip() of an X-Forwarded-For entry is modelled with the CPython 3.12 whitespace set (compared with the interpreter by C43's `tables` case)",
 ]
-RULE = ("1-5 keep-alive requests per connection, each with 0-4 proxy header lines drawn from IPs (v4, v6, mapped, scoped), garbage, "
+RULE = ("1-5 keep-alive requests per connection, each with 0-4 proxy header lines drawn from IPs (v4, v6, mapped, scoped), a table of "
+        "numeric-host boundary forms (inet_aton short/octal/hex forms and overflows, IPv6 group counts and `::` placement, embedded quads, "
+        "zone ids: index, interface, alias-label trick, junk), 1-2 character mutations of all of these, garbage, "
         "lists with trusted entries and inner spaces, empty values, mixed-case/duplicate/folded header names; GET and POST, immediate "
-        "and delayed responses, random segmentation; non-trivial = >=2 requests on the connection of which >=1 changes remote_ip or protocol")
+        "and delayed responses, random segmentation; HTTP/1.1, HTTP/1.0 with and without keep-alive (requests after the one that ends "
+        "the connection must not be served), AF_INET / AF_INET6 / unix-socket contexts, application callbacks and handlers that raise, unparsable header blocks in mid-connection; non-trivial = >=2 requests on the connection of which >=1 changes remote_ip or protocol")
 EXHAUSTIVE = {"quick": False, "thorough": False}
 CLAUSE_CAVEATS = [
-    "'numeric IP address' is judged with the implementation's own is_valid_ip in the tie (validity is a parameter in Lean); the independent characterisation of is_valid_ip is property C43's",
+    "'numeric IP address' = Spec.numericIP (inet(3) numbers-and-dots forms, RFC 4291 IPv6 text, optional RFC 4007 zone id); the Lean "
+    "theorems reach it from the code only through the ASSUMED resolver contract ResolverNumeric (getaddrinfo(AI_NUMERICHOST) accepts "
+    "nothing but numeric-host text once is_valid_ip's pre-checks passed) — libc is not modelled. The oracle does not depend on that "
+    "assumption (it applies Spec.numericIP to the observed remote_ip), but it sees only this platform's resolver",
+    "no_leak_conn covers the early ends of a connection (delegate raising in _ProxyAdapter.finish so that the restore is skipped, "
+    "unparsable header block, request not kept alive, peer leaving) under the model's rule that _server_request_loop reads no further "
+    "request then (connEvents); that the real loop does stop there is observed by the tie (the model decides where the connection "
+    "ends, request count and contexts are compared on every case), not derived from http1connection.py",
 ]
 CLAUSES = {
     "remote_ip is a numeric IP taken from the proxy headers only when they supply one, X-Real-Ip before the rightmost untrusted "
     "X-Forwarded-For entry, else the socket address":
-        "remote_ip_source, remote_ip_valid_or_socket, remote_ip_spec_partial (+ remote_ip_spec_refuted: known finding, an "
-        "all-trusted X-Forwarded-For list yields its leftmost entry)",
+        "numeric: remote_ip_numeric_trace, remote_ip_numeric (every request of every trace: socket address or Spec.numericIP), "
+        "isValidIp_numeric (the fixed is_valid_ip's pre-checks reduce the contract to ASCII, NUL-free, colon-free-zone text) — all "
+        "under the assumed resolver contract ResolverNumeric; source/precedence: remote_ip_source, remote_ip_valid_or_socket, "
+        "remote_ip_spec_partial, remote_ip_allowed (the address is one Spec.allowedOf permits — a definition without is_valid_ip) "
+        "(+ remote_ip_spec_refuted: known finding, an all-trusted X-Forwarded-For list yields its leftmost entry)",
     "protocol is http or https": "protocol_http_or_https, protocol_observed",
     "values derived from one request never affect a later request on the same connection":
-        "no_leak, no_leak_trace, unapply_restores, ctx_restored_after_run (leak_without_finish shows the reliance on C05)",
+        "no_leak, no_leak_trace, unapply_restores, ctx_restored_after_run (leak_without_finish shows the reliance on C05), "
+        "no_leak_conn (whole connection incl. its early ends: the request objects built are exactly those of servedReqs, each equal "
+        "to what the request observes on a fresh connection), finish_raises_keeps_rewrite",
 }
 PARALLEL = True
 CASE_TIMEOUT = 90
@@ -49,21 +71,56 @@ IPS = ["4.4.4.4", "1.2.3.4", "5.5.5.5", "10.0.0.1", "::1", "2001:db8::ff", "::ff
        "127.1", "1", "01.2.3.4", "9.9.9.9"]
 GARBAGE = ["garbage", "4.4.4.4<script>", "www.google.com", "1.2.3.256", "1.2.3.4.5", "[::1]", "::1%", "1.2.3.4\xad", "\xb9.2.3.4", "::\xaa",
            "1.2.3.4\xa0", "\xa04.4.4.4", "unknown", "-", "1.2.3.4:80", "x" * 70, "1.2.3.4;", "\xe9", "fe80::1%zz", "1.2.3.4%lo", "::g"]
+# decision boundaries of "numeric IP address": inet_aton short/octal/hex forms and their overflows, IPv6 group counts, `::` placement,
+# embedded dotted quads, zone ids (existing / missing interface, index, alias-label trick, junk)
+EDGE = ["0x7f.1", "0x7f.0.0.1", "0177.0.0.1", "08.1.1.1", "1.2.3", "1.2", "4294967295", "4294967296", "1.2.65535", "1.2.65536",
+        "1.16777215", "1.16777216", "256.1.1.1", "1.256.1", "0x.1.1.1", "0x100.1.1.1", "0xff.1.1.1", "1.2.3.4.", ".1.2.3.4", "1..3.4",
+        "1.2.3.04", "1.2.3.0x4", "1.2.3.0x", "00.0.0.0", "0", "::", ":::", "::::", "::1:", ":1::", "1:2:3:4:5:6:7:8", "1:2:3:4:5:6:7:8:9",
+        "1:2:3:4:5:6:7", "1::8", "1:2:3:4:5:6:7::", "::2:3:4:5:6:7:8", "1::2::3", "12345::", "::1.2.3", "::1.2.3.4", "::1.2.3.256",
+        "::01.2.3.4", "1:2:3:4:5:6:1.2.3.4", "1:2:3:4:5:6:7:1.2.3.4", "1.2.3.4::", "::ffff:1.2.3.4%1", "fe80::1%1", "fe80::1%01",
+        "fe80::1%", "fe80::1%lo", "fe80::1%lo:<script>", "fe80::1%lo: x", "fe80::1%lo:1", "ff02::1%lo:<b>", "fe80::1%1:x", "fe80::1%lo%lo",
+        "fe80::1%4294967295", "fe80::1%4294967296", "fe80::1%+1", "fe80::1% 1", "2001:db8::1%1", "2001:db8::1%lo", "::1%lo", "::1%1",
+        "+1.2.3.4", "-1", "1e3", "0b1", "1.2.3.4 5", "1.2.3.4/8", "0x7F.0X1", "0xg", "FE80::1", "fe80:0:0:0:0:0:0:1", "00001::", "::00001"]
+_MUT = "0123456789abcfxXg.:%lo <-+"
+
+
+def _mutate(rng, v):
+    """one or two character edits of an address: the near misses around every branch of the numeric-host grammar"""
+    for _ in range(rng.choice([1, 1, 2])):
+        k = rng.random()
+        i = rng.randrange(len(v) + 1)
+        if k < 0.4:
+            v = v[:i] + rng.choice(_MUT) + v[i:]
+        elif k < 0.65 and v:
+            i = rng.randrange(len(v))
+            v = v[:i] + v[i + 1:]
+        elif v:
+            i = rng.randrange(len(v))
+            v = v[:i] + rng.choice(_MUT) + v[i + 1:]
+    return v.strip(" ,") or "0"
+
+
 NAMES_XFF = ["X-Forwarded-For", "x-forwarded-for", "X-FORWARDED-FOR", "X-Forwarded-for"]
 NAMES_REAL = ["X-Real-Ip", "X-Real-IP", "x-real-ip"]
 NAMES_SCHEME = ["X-Scheme", "x-scheme"]
 NAMES_PROTO = ["X-Forwarded-Proto", "x-forwarded-proto", "X-FORWARDED-PROTO"]
 PROTOS = ["http", "https", "HTTPS", "ftp", "https, http", "http,https", "https ,", ",https", "https\t", "wss", "http:", "h", "https,  http ",
           "http\xa0", "\xa0https"]
+BAD_LINES = ["X-Real-Ip 4.4.4.4", "X Real-Ip: 4.4.4.4", ": 4.4.4.4", "X-Real-Ip: 4.4.4.4\x01", "X-Forwarded-For: 1.2.3.4\x7f", "X-Real-Ip\t: 4.4.4.4",
+             "X-Forwarded-For", "X-R\xe9al-Ip: 4.4.4.4", "(X-Scheme): https", "X-Forwarded-Proto: https\x00"]
 FIELD_VALUE = re.compile(r"(?:[\x21-\x7e\x80-\xff](?:[\x21-\x7e\x80-\xff \t]*[\x21-\x7e\x80-\xff])?)?\Z")
 
 
 def _ip(rng, trusted):
     k = rng.random()
-    if k < 0.6:
+    if k < 0.45:
         return rng.choice(IPS)
-    if k < 0.75 and trusted:
+    if k < 0.6 and trusted:
         return rng.choice(trusted)
+    if k < 0.75:
+        return rng.choice(EDGE)
+    if k < 0.87:
+        return _mutate(rng, rng.choice(IPS + EDGE)).replace(",", ".")
     return rng.choice(GARBAGE)
 
 
@@ -101,8 +158,12 @@ def _req(rng, trusted):
     lines = [l for l in lines if l[0] in " \t" or FIELD_VALUE.match(l.split(":", 1)[1].strip(" \t"))]
     if lines and lines[0][0] in " \t":
         lines = lines[1:]
+    bad = rng.random() < 0.05
+    if bad:             # a header block that does not parse: 400 and the connection ends before the proxy adapter sees the request
+        lines.insert(rng.randint(0, len(lines)), rng.choice(BAD_LINES))
     post = rng.random() < 0.25
-    return {"lines": lines, "body": rng.choice([0, 1, 5, 70]) if post else None, "delay": rng.random() < 0.3}
+    return {"lines": lines, "body": rng.choice([0, 1, 5, 70]) if post else None, "delay": rng.random() < 0.3,
+            "version": rng.choice(["1.1"] * 8 + ["1.0ka", "1.0ka", "1.0"]), "raises": rng.random() < 0.06, "bad": bad}
 
 
 def gen_cases(rng, tier):
@@ -113,16 +174,20 @@ def gen_cases(rng, tier):
         yield {"sock": rng.choice(SOCKS), "protocol": rng.choice([None, None, "http", "https"]), "trusted": trusted,
                "reqs": [_req(rng, trusted) for _ in range(nreq)], "kind": rng.choice(["callable", "callable", "app"]),
                "seg": rng.choice([0, 0, 1, 7, 19, 64]), "pipelined": rng.random() < 0.4,
-               "end": rng.choice(["eof", "eof", "close-header", "abort-in-body"])}
+               "end": rng.choice(["eof", "eof", "close-header", "abort-in-body"]),
+               "family": rng.choice(["inet"] * 6 + ["inet6", "inet6", "unix", "unix"])}
 
 
 # ----------------------------------------------------------------------------------------------- implementation
 def _raw(req, k, last_close):
     body = req["body"]
-    head = "%s /r%d HTTP/1.1\r\nHost: example.com\r\n" % ("POST" if body is not None else "GET", k)
+    ver = req.get("version", "1.1")
+    head = "%s /r%d HTTP/%s\r\nHost: example.com\r\n" % ("POST" if body is not None else "GET", k, ver[:3])
+    if ver == "1.0ka":
+        head += "Connection: keep-alive\r\n"
     if body is not None:
         head += "Content-Length: %d\r\n" % body
-    if last_close:
+    if last_close and ver != "1.0ka":
         head += "Connection: close\r\n"
     head += "".join(l + "\r\n" for l in req["lines"]) + "\r\n"
     return head.encode("latin-1") + (b"b" * body if body else b"")
@@ -142,10 +207,13 @@ def _serve(case, reqs, end):
             obs.append([request.remote_ip, request.protocol, ctx.remote_ip, ctx.protocol])
 
         delays = {("/r%d" % k): r["delay"] for k, r in enumerate(reqs)}
+        raises = {("/r%d" % k): r.get("raises", False) for k, r in enumerate(reqs)}
 
         if case["kind"] == "callable":
             def cb(request):
                 record(request)
+                if raises.get(request.path):
+                    raise RuntimeError("application callback failed")     # inside _ProxyAdapter.finish: _cleanup() is skipped
 
                 def respond():
                     request.connection.write_headers(httputil.ResponseStartLine("HTTP/1.1", 200, "OK"),
@@ -162,13 +230,24 @@ def _serve(case, reqs, end):
             class H(web.RequestHandler):
                 async def get(self):
                     record(self.request)
+                    if raises.get(self.request.path):
+                        raise RuntimeError("handler failed")      # RequestHandler answers 500; the connection goes on
                     if delays.get(self.request.path):
                         await asyncio.sleep(1.0)
                 post = get
             server = HTTPServer(web.Application([(r"/.*", H)]), xheaders=True, trusted_downstream=case["trusted"],
                                 protocol=case["protocol"])
         s = faketransport.FakeStream(lp.io_loop)
-        server.handle_stream(s, (case["sock"], 4321))
+        import socket as _socket
+        fam = case.get("family", "inet")
+        if fam == "inet6":
+            s._fd.family = _socket.AF_INET6
+            server.handle_stream(s, (case["sock"], 4321, 0, 0))
+        elif fam == "unix":
+            s._fd.family = _socket.AF_UNIX
+            server.handle_stream(s, "")              # what accept() returns for an unnamed unix peer on Linux
+        else:
+            server.handle_stream(s, (case["sock"], 4321))
         lp.drain()
         conn = next(iter(server._connections))
         ctx = conn.context
@@ -191,7 +270,7 @@ def _serve(case, reqs, end):
             lp.drain()
         lp.advance(3.0)
         final = [ctx.remote_ip, ctx.protocol]
-        responses = bytes(s.written).count(b"HTTP/1.1 ")
+        responses = bytes(s.written).count(b"HTTP/1.1 ") if b"400 Bad Request" not in bytes(s.written) else -1
     return obs, mid, final, responses
 
 
@@ -201,18 +280,38 @@ def run_impl(case):
     obs, mid, final, nresp = _serve(case, case["reqs"], case["end"])
     solo = []
     for r in case["reqs"]:
-        o, _, _, _ = _serve({**case, "pipelined": False, "seg": 0}, [{**r, "delay": False}], "eof")
+        o, _, _, _ = _serve({**case, "pipelined": False, "seg": 0}, [{**r, "delay": False, "raises": False}], "eof")
         solo.append(o[0][:2] if o else None)
-    cands = set([case["sock"]])
+    cands = set([_sock(case)])
     for r in case["reqs"]:
-        h = HTTPHeaders.parse("".join(l + "\r\n" for l in r["lines"]))
+        try:
+            h = HTTPHeaders.parse("".join(l + "\r\n" for l in r["lines"]))
+        except Exception:
+            continue
         for name in ("X-Forwarded-For", "X-Real-Ip"):
             v = h.get(name)
             if v is not None:
                 cands.add(v)
                 cands.update(p.strip() for p in v.split(","))
+    cands = sorted(cands)
     valid = sorted(c for c in cands if is_valid_ip(c))
-    return {"obs": obs, "mid": mid, "final": final, "solo": solo, "valid": valid, "responses": nresp}
+    return {"obs": obs, "mid": mid, "final": final, "solo": solo, "valid": valid, "cands": cands,
+            "gai": [c for c in cands if _gai(c)], "responses": nresp}
+
+
+def _gai(s):
+    """the raw resolver: getaddrinfo(AI_NUMERICHOST) returned results (EAI_NONAME, UnicodeError -> no)"""
+    import socket
+    if not s or "\x00" in s:
+        return False          # is_valid_ip never asks (getaddrinfo reads "" as localhost and refuses NUL with ValueError)
+    try:
+        return bool(socket.getaddrinfo(s, 0, socket.AF_UNSPEC, socket.SOCK_STREAM, 0, socket.AI_NUMERICHOST))
+    except socket.gaierror as e:
+        if e.args[0] == socket.EAI_NONAME:
+            return False
+        raise
+    except UnicodeError:
+        return False
 
 
 # ----------------------------------------------------------------------------------------------- model / spec
@@ -220,27 +319,65 @@ def _proto(case):
     return case["protocol"] or "http"
 
 
-def _expected_count(case):
-    """requests that reach the handler: all of them, except a last one whose body is cut short"""
+def _sock(case):
+    """the socket address as _HTTPRequestContext sees it: address[0] for AF_INET/AF_INET6, the documented fake otherwise"""
+    return "0.0.0.0" if case.get("family", "inet") == "unix" else case["sock"]
+
+
+def _raising(case, r):
+    """a plain callable that raises does so inside _ProxyAdapter.finish -> the connection is closed (a RequestHandler
+    that raises is answered with 500 by tornado.web and the connection goes on)"""
+    return bool(r.get("raises")) and case["kind"] == "callable"
+
+
+def _reached(case):
+    """requests the server starts to read: up to the first one after which the connection is not kept alive"""
     n = len(case["reqs"])
-    if case["end"] == "abort-in-body" and case["reqs"] and case["reqs"][-1]["body"]:
-        n -= 1
+    for k, r in enumerate(case["reqs"]):
+        ver = r.get("version", "1.1")
+        if r.get("bad") or ver == "1.0" or _raising(case, r) or (k == n - 1 and case["end"] == "close-header" and ver != "1.0ka"):
+            return k + 1
     return n
 
 
+def _ends_bad(case):
+    m = _reached(case)
+    return m > 0 and bool(case["reqs"][m - 1].get("bad"))
+
+
 def _aborted(case):
-    return bool(case["end"] == "abort-in-body" and case["reqs"] and case["reqs"][-1]["body"])
+    return bool(case["end"] == "abort-in-body" and case["reqs"] and case["reqs"][-1]["body"] and _reached(case) == len(case["reqs"])
+                and not _ends_bad(case))
+
+
+def _expected_count(case):
+    """requests that reach the handler: the reached ones, except a last one whose body is cut short or whose header block is refused"""
+    return _reached(case) - (1 if _aborted(case) or _ends_bad(case) else 0)
+
+
+def _ends_raising(case):
+    k = _reached(case) - 1
+    return k >= 0 and _raising(case, case["reqs"][k]) and not _aborted(case)
+
+
+def _outcome(case, k, r):
+    n = len(case["reqs"])
+    if k == n - 1 and case["end"] == "abort-in-body" and r["body"]:
+        return "A"                       # the peer goes away inside the body: on_connection_close
+    if _raising(case, r):
+        return "X"                       # delegate.finish() raises: no restore; the connection is closed
+    ver = r.get("version", "1.1")
+    if ver == "1.0" or (k == n - 1 and case["end"] == "close-header" and ver != "1.0ka"):
+        return "L"
+    return "K"
 
 
 def model_requests(case, impl):
-    evs = []
-    for k, r in enumerate(case["reqs"]):
-        evs.append([atom("H"), r["lines"]])
-        if k == len(case["reqs"]) - 1 and _aborted(case):
-            evs.append([atom("C")])          # the peer goes away inside the body: on_connection_close
-        else:
-            evs.append([atom("F")])
-    return [line(ID, "trace", case["sock"], _proto(case), case["trusted"], impl["valid"], evs)]
+    # ALL requests go to the model; where the connection ends (unparsable block, not kept alive, raising delegate, peer gone) is
+    # decided by the model's `connEvents`
+    reqs = [[r["lines"], atom(_outcome(case, k, r))] for k, r in enumerate(case["reqs"])]
+    return [line(ID, "conn", _sock(case), _proto(case), case["trusted"], impl["gai"], reqs),
+            line(ID, "valid", impl["cands"], impl["gai"])]
 
 
 def _norm(v):
@@ -259,63 +396,86 @@ def _py(reply):
 
 def model_result(case, replies):
     steps = _py(replies[0])[0]
-    orig = [case["sock"], _proto(case)]
+    orig = [_sock(case), _proto(case)]
     obs = []
-    n = _expected_count(case)
     for o, ip, proto in steps:
-        if isinstance(o, list) and len(obs) < n:
+        if isinstance(o, list):
             # a callable sees the context still rewritten; a RequestHandler method runs after _ProxyAdapter.finish
             obs.append(o + (o if case["kind"] == "callable" else orig))
+    if _aborted(case) and len(steps) >= 2 and steps[-1][0] == "N" and isinstance(steps[-2][0], list) and obs:
+        obs.pop()       # the request object of a request whose body never completes is built but never handed to the callback
     # `mid` is read when every byte has been delivered: before the final close event of an aborted request
-    mid = steps[-2][1:] if _aborted(case) else (steps[-1][1:] if steps else orig)
+    mid = steps[-2][1:] if (steps and steps[-1][0] == "N" and _aborted(case)) else (steps[-1][1:] if steps else orig)
     final = steps[-1][1:] if steps else orig
-    return {"obs": obs, "mid": mid, "final": final}
+    return {"obs": obs, "mid": mid, "final": final, "valid": _py(replies[1])[0],
+            "refused": bool(steps) and steps[-1][0] == "BadHeaders"}
 
 
 def impl_view(case, impl):
-    return {"obs": impl["obs"], "final": impl["final"], "mid": impl["mid"]}
+    return {"obs": impl["obs"], "final": impl["final"], "mid": impl["mid"], "valid": impl["valid"],
+            "refused": impl["responses"] == -1}        # the server answered 400 Bad Request
+
+
+def _seen_ips(impl):
+    return sorted({o[0] for o in impl["obs"] if isinstance(o[0], str)})
 
 
 def spec_requests(case, impl):
-    return [line(ID, "spec", case["sock"], case["trusted"], impl["valid"], [r["lines"] for r in case["reqs"]])]
-
-
-_NUMERIC = re.compile(r"[0-9A-Fa-fxX.:]+(%[!-~]+)?\Z")
+    # neither line carries anything computed by is_valid_ip
+    return [line(ID, "spec", _sock(case), case["trusted"], [r["lines"] for r in case["reqs"]]),
+            line(ID, "numeric", _seen_ips(impl))]
 
 
 def spec_violation(case, impl, replies):
     want = _py(replies[0])[0]
+    numeric = dict(zip(_seen_ips(impl), _py(replies[1])[0]))
     obs = impl["obs"]
     n = _expected_count(case)
-    if len(obs) != n:
-        return "handler saw %d requests, %d were sent completely" % (len(obs), n)
-    for i, o in enumerate(obs):
+    for i, o in enumerate(obs[:len(case["reqs"])]):
         ip, proto = o[0], o[1]
         if proto not in ("http", "https"):
             return "request %d: protocol %r" % (i, proto)
-        if ip != case["sock"] and not (isinstance(ip, str) and ip.isascii() and _NUMERIC.match(ip)):
+        if ip != _sock(case) and numeric.get(ip) is not True:
             return "request %d: remote_ip %r is neither the socket address nor a numeric IP address" % (i, ip)
         if impl["solo"][i] is not None and [ip, proto] != impl["solo"][i]:
             return "request %d saw %r but %r on a fresh connection: state leaked from an earlier request" % (i, [ip, proto], impl["solo"][i])
         w = want[i]
-        if isinstance(w, list) and ip != w[0]:
+        if isinstance(w, list) and ip not in w[0]:
             if w[1] is True:
                 return "request %d: every X-Forwarded-For entry is a trusted proxy; remote_ip %r, socket address expected" % (i, ip)
-            return "request %d: remote_ip %r, the headers call for %r" % (i, ip, w[0])
-    if impl["final"] != [case["sock"], _proto(case)] or (not _aborted(case) and impl["mid"] != [case["sock"], _proto(case)]):
+            return "request %d: remote_ip %r, the headers call for %s" % (i, ip, " or ".join(repr(x) for x in w[0]))
+    if len(obs) != n:
+        return "handler saw %d requests, %d were sent completely on a connection still open" % (len(obs), n)
+    if _ends_raising(case):
+        return None       # the connection was closed by the failing callback: there is no later request to protect
+    if impl["final"] != [_sock(case), _proto(case)] or (not _aborted(case) and impl["mid"] != [_sock(case), _proto(case)]):
         return "connection context not restored after the last request: %r / %r" % (impl["mid"], impl["final"])
     return None
 
 
 def nontrivial(case, impl):
-    return len(impl["obs"]) >= 2 and any(o[:2] != [case["sock"], _proto(case)] for o in impl["obs"])
+    return len(impl["obs"]) >= 2 and any(o[:2] != [_sock(case), _proto(case)] for o in impl["obs"])
 
 
 def stats(case, impl):
     out = ["reqs:%d" % len(case["reqs"]), "kind:" + case["kind"], "end:" + case["end"], "pipelined:%s" % case["pipelined"]]
+    out.append("family:" + case.get("family", "inet"))
+    out.append("served:%d/%d" % (len(impl["obs"]), len(case["reqs"])))
+    for r in case["reqs"][:_reached(case)]:
+        out.append("version:" + r.get("version", "1.1"))
+    if _ends_bad(case):
+        out.append("connection ended by an unparsable header block")
+    if _ends_raising(case):
+        out.append("connection ended by a callback raising in finish (context left rewritten)")
     for o in impl["obs"]:
-        out.append("ip:" + ("socket" if o[0] == case["sock"] else "header"))
+        out.append("ip:" + ("socket" if o[0] == _sock(case) else "header"))
         out.append("proto:" + o[1] + ("" if o[1] == _proto(case) else "(changed)"))
+    out.append("candidates accepted by is_valid_ip:%d" % min(len(impl["valid"]), 6))
+    out.append("candidates refused:%d" % min(len(impl["cands"]) - len(impl["valid"]), 6))
+    if set(impl["gai"]) - set(impl["valid"]):
+        out.append("resolver accepts, pre-checks of is_valid_ip refuse")
+    if any("%" in v for v in impl["valid"]):
+        out.append("accepted address with zone id")
     return out
 
 
@@ -325,7 +485,9 @@ def signature(case, impl, why):
     if "leaked" in why or "not restored" in why:
         return "leak"
     if "numeric" in why:
-        return "remote_ip/not-numeric" + ("/non-ascii" if any(not o[0].isascii() for o in impl["obs"] if isinstance(o[0], str)) else "")
+        bad = [o[0] for o in impl["obs"] if isinstance(o[0], str) and repr(o[0]) in why]
+        return "remote_ip/not-numeric" + ("/non-ascii" if any(not b.isascii() for b in bad) else
+                                           "/zone-id" if any("%" in b for b in bad) else "")
     if "protocol" in why:
         return "protocol/not-http-or-https"
     if "handler saw" in why:
